@@ -70,7 +70,7 @@ class C12(Property):
             pulls = [total // 3, 2 * total // 3, total]
         coarse = [x for k, x in enumerate(pulls) if k % 3 == 2 or k == len(pulls) - 1]
         return dict(kind=kind, step=step, per_time=per_time, units=rnd.choice(UNITS), pubs=pubs, pulls=pulls, coarse=coarse,
-                    payload=rnd.choice(["scalar", "scalar", "grid"]), memory=rnd.choice([None, None, None, 0, 50]), rejects=rnd.random() < 0.4)
+                    payload=rnd.choice(["scalar", "scalar", "grid"]), memory=rnd.choice([None, None, None, 0, 50]), rejects=rnd.random() < 0.4, initial_pull=rnd.random() < 0.65)
 
     def run(self, spec):
         import os
@@ -121,9 +121,13 @@ class C12(Property):
                 pi += 1
 
         publish_until(0)
-        # initial pulls at the first publication (not judged, documented initial value)
-        i1.pull_data(slots.t(0))
-        i2.pull_data(slots.t(0))
+        if spec.get("initial_pull", True):
+            # initial pulls at the first publication (not judged, documented initial value)
+            i1.pull_data(slots.t(0))
+            i2.pull_data(slots.t(0))
+        else:
+            # consumers that do not pull while connecting: the first pull integrates from the first publication
+            out.count("consumers_without_initial_pull")
         prev = {"fine": 0, "coarse": 0}
         acc_fine = F(0)
         acc_fine_real = 0.0
@@ -235,7 +239,7 @@ class C12(Property):
 
     def coverage_gaps(self, counters, tier):
         need = ["pulls_judged", "out_of_range_refused", "per_time_unit_checks", "average_range_checks", "partition_conservation_checks", "kind_avg", "kind_sum", "kind_sum_pt",
-                "mode_linear", "mode_step"]
+                "mode_linear", "mode_step", "consumers_without_initial_pull"]
         return [f"{k} never observed" for k in need if not counters.get(k)]
 
 
